@@ -11,6 +11,8 @@ VARIABLES l, os, ps, ty, sizepos, pos, phase
 A == INSTANCE Alphabet
 
 SeqSet(s) == {s[i] : i \in 1..Len(s)}
+\* atoms that hold no character in the event's string type: they count neither as allowed nor as covered
+Emp(e) == SeqSet(e.empty)
 
 HasIncl(e) == \E i \in 1..Len(e.os) : e.os[i].k = "incl"
 SameConstraint(e) == e.sizepos \in {"before", "after", "before_ext", "after_ext"}
@@ -39,17 +41,17 @@ Predicted(D, e) ==
 Explains(D, e, obsset) ==
     /\ Applicable(D, e)
     /\ \/ "D_C15_fold_with_size" \in D
-       \/ ~e.partial /\ ~e.outside /\ (e.sizepos # "none" => e.has_size) /\ obsset = Predicted(D, e)
+       \/ ~e.partial /\ ~e.outside /\ (e.sizepos # "none" => e.has_size) /\ obsset = Predicted(D, e) \ Emp(e)
 
 Accept(e, obsset) ==
     IF A!HasExcept(e.ps)
-    THEN A!Allowed(e.os, e.ps) \subseteq obsset /\ obsset \subseteq A!AllowedNoExcept(e.os, e.ps)
-    ELSE obsset = A!Allowed(e.os, e.ps)
+    THEN (A!Allowed(e.os, e.ps) \ Emp(e)) \subseteq obsset /\ obsset \subseteq A!AllowedNoExcept(e.os, e.ps)
+    ELSE obsset = A!Allowed(e.os, e.ps) \ Emp(e)
 
 Why(e, obsset) ==
     IF e.outside THEN "annotation names characters outside the base type's alphabet"
     ELSE IF e.sizepos # "none" /\ ~e.has_size THEN "SIZE constraint combined with FROM was lost"
-    ELSE IF ~(A!Allowed(e.os, e.ps) \subseteq obsset) THEN "annotation omits characters the FROM constraint allows"
+    ELSE IF ~((A!Allowed(e.os, e.ps) \ Emp(e)) \subseteq obsset) THEN "annotation omits characters the FROM constraint allows"
     ELSE "annotation does not denote exactly the FROM constraint"
 
 JudgeBody(e, i) ==
@@ -57,10 +59,10 @@ JudgeBody(e, i) ==
     ELSE IF e.status # "ok" THEN Report(i, "MISMATCH", "no item generated for the type")
     ELSE IF e.ty \notin KMTypes THEN
          IF e.has_from THEN Report(i, "MISMATCH", "alphabet annotation on a string type that is not known-multiplier") ELSE TRUE
-    ELSE IF A!Allowed(e.os, e.ps) = {} THEN Report(i, "SKIP", "empty alphabet (not legal ASN.1)")
+    ELSE IF A!Allowed(e.os, e.ps) \ Emp(e) = {} THEN Report(i, "SKIP", "empty alphabet (not legal ASN.1)")
     ELSE
       \* no annotation = the whole base alphabet
-      LET obsset == IF e.has_from THEN SeqSet(e.obs) ELSE A!Atoms
+      LET obsset == (IF e.has_from THEN SeqSet(e.obs) ELSE A!Atoms) \ Emp(e)
           ok == ~e.outside /\ ~e.partial /\ (e.sizepos # "none" => e.has_size) /\ Accept(e, obsset)
           expl == {D \in SUBSET AllDevs : D # {} /\ Explains(D, e, obsset)}
       IN
@@ -76,7 +78,7 @@ JudgeBody(e, i) ==
 \* constraint is the characters of the type between the bounds (X.680 51.4.3).  The rest of the event is judged as if the
 \* annotation stayed inside the base alphabet.
 Judge(e, i) ==
-    LET gap == e.status = "ok" /\ e.outside /\ \E j \in DOMAIN e.os : e.os[j].k = "range" IN
+    LET gap == e.status = "ok" /\ e.outside /\ \E j \in DOMAIN e.os : A!IsRange(e.os[j]) IN
     /\ gap => (IF "D_C15_range_spans_gap" \in KnownDevs THEN Report(i, "DEVIATION", "D_C15_range_spans_gap")
                ELSE Report(i, "MISMATCH", "annotation names characters outside the base type's alphabet (as deviation D_C15_range_spans_gap, not a listed known finding)"))
     /\ JudgeBody([e EXCEPT !.outside = e.outside /\ ~gap], i)
